@@ -34,6 +34,15 @@ def generic_recipes(rng, quick):
                 pos = rng.randrange(n)
                 s2 = s[:pos] + extra + s[pos:]
                 out.append({"fn": "typing", "cls": cspec, "seq": gen.rotate(s2, rng.randrange(len(s2)))})
+                # one letter of a recognition site written as a compatible ambiguity code (GGTCTS, RGTCTC, GGTCTN): the enzyme
+                # does not cut there, so whatever the class accepts must still be explained by true cuts
+                up_ = s.upper()
+                hits = [i for i in range(n) if (up_ + up_)[i:i + len(G.site)] in (G.site, G.rcsite)]
+                if hits:
+                    j = (rng.choice(hits) + rng.randrange(len(G.site))) % n
+                    codes = [c for c, m in gen.IUPAC.items() if c not in "ACGT" and up_[j] in m]
+                    s3 = s[:j] + rng.choice(codes) + s[j + 1:]
+                    out.append({"fn": "typing", "cls": cspec, "seq": gen.rotate(s3, rng.randrange(n))})
     return out
 
 
